@@ -197,6 +197,37 @@ def runner(rep, tier, seed, replay):
         jobs.append({"entry": "c", "text": render(c), "vhfiles": vh, "timeout": 5, "want_files": False})
     # the same lines as the head of `if` / `else if` / `while` (separate code path: scripting.rs::run_exp_test_br)
     structure.check_heads(rep, jobs, random.Random(seed), 100 if tier == "quick" else 1000, "C11")
+    # ---- builtins as inner commands: they run inside the shell and hand their text back without the capture pipes; the value
+    # is what the builtin prints when run on its own (its standard output), without the trailing newlines
+    binner = ["ulimit -n", "ulimit -c", "ulimit -a", "ulimit -H -n", "cinfo", "alias", "alias zz"]
+    bjobs = []
+    for b in binner:
+        bjobs.append({"entry": "c", "text": "alias zz=vq ; alias yy='vpa 1' ; %s" % b, "timeout": 10, "want_files": False})
+        for form in ('vpa L "[$(%s)]" R', 'vpa L "[`%s`]" R', 'X=$(%s) ; vpa L "[$X]" R', 'vio H r <<< "[$(%s)]"'):
+            bjobs.append({"entry": "c", "text": "alias zz=vq ; alias yy='vpa 1' ; " + form % b, "timeout": 10, "want_files": False})
+    bres = run_cases(bjobs)
+    for bi, b in enumerate(binner):
+        plain = bres[bi * 5]
+        import re as _re
+        sre = _re.compile(r"/(?:dev/shm|[^ ]*/\.work)/vf-\d+/c\d+")
+
+        def canon(t):
+            # listings of a hash table come in no particular order, and some lines name the per-run scratch directory
+            return sorted(sre.sub("<S>", t).split("\n")) if isinstance(t, str) else t
+        want = "[" + plain.get("stdout", "").rstrip("\n") + "]"
+        for k in range(1, 5):
+            rep.cov["evaluations"] += 1
+            j, res = bjobs[bi * 5 + k], bres[bi * 5 + k]
+            if k < 4:
+                got = [r.get("argv") for r in res.get("log", []) if r.get("h") == "pa"]
+                ok = len(got) == 1 and len(got[0]) == 3 and got[0][0] == "L" and got[0][2] == "R" and got[0][1][:1] == "[" and got[0][1][-1:] == "]" and canon(got[0][1][1:-1]) == canon(want[1:-1])
+            else:
+                got = [r.get("stdin") for r in res.get("log", []) if r.get("h") == "io"]
+                ok = len(got) == 1 and isinstance(got[0], str) and got[0][:1] == "[" and got[0][-2:] == "]\n" and canon(got[0][1:-2]) == canon(want[1:-1])
+            if not ok or not plain.get("stdout"):
+                rep.violation("builtin-output/%s" % b.split()[0], "`%s`: the builtin `%s` prints %r on its own, the substitution gave %s (stderr %s)"
+                              % (j["text"], b, plain.get("stdout"), got, res.get("stderr", "")[-200:]),
+                              {"kind": "builtin-output", "text": j["text"], "inner": b, "got": got}, {"kind": "builtin-output", "inner": b, "form": k})
     results = run_cases(jobs)
     slow = [i for i, res in enumerate(results) if res.get("timed_out")]
     if slow:
